@@ -18,6 +18,21 @@ class MinesweeperH(Harness):
     QUICK = ["Minesweeper@3x4x3", "Minesweeper@2x3x1"]
     THOROUGH = ["Minesweeper@4x4x4", "Minesweeper@2x5x4"]
     INVALID = "terminate"
+    REF_REWARD_VARIANTS = True   # ref_step / illegal_effect follow the constants of the variant (C05, C08, C09 run the variants)
+
+    @staticmethod
+    def _custom_rewards():
+        # non-default DefaultRewardFn(revealed_empty_square_reward, revealed_mine_reward, invalid_action_reward): three DIFFERENT non-zero
+        # constants (the defaults 1/0/0 cannot tell the mine reward from the invalid-action reward).  The intended constants travel on
+        # the object under a harness-private name: the oracle never reads them back from the attributes the code under test assigns.
+        from jumanji.environments.logic.minesweeper.reward import DefaultRewardFn
+        fn = DefaultRewardFn(2.0, -10.0, -3.0)
+        fn._verif_consts = (2.0, -10.0, -3.0)
+        return fn
+
+    def rw(self):
+        c = getattr(self.over.get("reward_function"), "_verif_consts", (1.0, 0.0, 0.0))
+        return tuple(np.float32(x) for x in c)
     MULTI_DISCRETE = True      # mask (rows, cols), action (2,) = one cell (not two agents)
 
     def dims(self):
@@ -94,12 +109,12 @@ class MinesweeperH(Harness):
     def treated_invalid(self, st, act, ns, ts):
         # documented reaction to an already explored square: episode ends with the invalid-action reward (0); what tells it
         # apart from a mine hit (also LAST, 0) is that nothing new is revealed
-        return [(vs(ts.step_type) == 2) & (vs(ts.reward) == np.float32(0.0)) & X.eq_arr(vs(ns.board), vs(st.board))]
+        return [(vs(ts.step_type) == 2) & (vs(ts.reward) == self.rw()[2]) & X.eq_arr(vs(ns.board), vs(st.board))]
 
     def illegal_effect(self, st, act, ns, ts, bad):
         b = bad[0]
         return [("explored square selected => LAST", b.implies(vs(ts.step_type) == 2)),
-                ("explored square selected => reward == invalid_action_reward (0)", b.implies(vs(ts.reward) == np.float32(0.0))),
+                ("explored square selected => reward == invalid_action_reward (default 0)", b.implies(vs(ts.reward) == self.rw()[2])),
                 ("explored square selected => board unchanged (the square keeps its number, nothing else is revealed)",
                  b.implies(X.same(ns.board, st.board))),
                 ("explored square selected => mines untouched", b.implies(X.same(ns.flat_mine_locations, st.flat_mine_locations)))]
@@ -118,10 +133,15 @@ class MinesweeperH(Harness):
 
     def reward_law(self, st, act, ns, ts, legal):
         # Phi = number of explored squares that are not mines (the documented objective: +1 per safe square revealed)
-        return [("reward == Phi(S') - Phi(S), Phi = explored non-mined squares",
-                 vs(ts.reward) == (self._explored_safe(ns) - self._explored_safe(st)).astype(np.float32)),
-                ("reward == [unexplored square chosen and it is not a mine]",
-                 vs(ts.reward) == where(legal & ~self._hit(st, act), np.float32(1.0), np.float32(0.0), np.float32))]
+        r0, r1, r2 = self.rw()
+        hit = self._hit(st, act)
+        ob = [("reward == revealed_empty_square_reward / revealed_mine_reward / invalid_action_reward by the documented case (defaults 1/0/0)",
+               vs(ts.reward) == where(legal & ~hit, r0, where(legal & hit, r1, r2, np.float32), np.float32))]
+        if (float(r0), float(r1), float(r2)) == (1.0, 0.0, 0.0):
+            # Phi = number of explored squares that are not mines (the documented objective: +1 per safe square revealed)
+            ob.append(("reward == Phi(S') - Phi(S), Phi = explored non-mined squares",
+                       vs(ts.reward) == (self._explored_safe(ns) - self._explored_safe(st)).astype(np.float32)))
+        return ob
 
     def ref_step(self, st, act):
         R_, C_, M_ = self.dims()
@@ -132,7 +152,7 @@ class MinesweeperH(Harness):
         nb = put(b, (a[0], a[1]), pick(adj, a[0], a[1]))
         solved = all_([(nb[i] >= 0) | mine[i] for i in np.ndindex(R_, C_)])     # every non-mined square explored
         return {"board": nb, "step_count": vs(st.step_count) + 1, "flat_mine_locations": vs(st.flat_mine_locations), "key": vs(st.key),
-                "reward": where(legal & ~hit, np.float32(1.0), np.float32(0.0), np.float32),
+                "reward": where(legal & ~hit, self.rw()[0], where(legal & hit, self.rw()[1], self.rw()[2], np.float32), np.float32),
                 "last": (~legal) | hit | solved}
 
     def measure(self, st):
@@ -181,3 +201,6 @@ class MinesweeperH(Harness):
         R.reach("kernel inputs", A)
         for n_, v in oracle(st, a, got, hit):
             R.prove(n_, A, v.term() if not v.conc else bool(v), replay=replay_for(n_))
+
+
+MinesweeperH.REWARD_VARIANTS = [{}, {"reward_function": MinesweeperH._custom_rewards()}]
